@@ -127,7 +127,7 @@ def main(argv):
     mode = argv[0]
     if mode.startswith("neutral"):
         allp = "--all-props" in argv
-        names = [a for a in argv[1:] if not a.startswith("--")] or sorted(os.listdir(os.path.join(VERIF, "neutral")))
+        names = [a for a in argv[1:] if not a.startswith("--")] or sorted(n for n in os.listdir(os.path.join(VERIF, "neutral")) if os.path.isdir(os.path.join(VERIF, "neutral", n)))
         sys.path.insert(0, VERIF)
         from sims import _ENGINES
         for name in names:
